@@ -4,6 +4,7 @@ Generated configurations (confgen) are driven through the WSGI application with 
 GetFeatureInfo requests; the upstream is the analytic ground function of ground.py, so the colour every
 output pixel should show follows from the georeference of the response alone.  See DESIGN.md section 2.
 """
+import gc
 import logging
 import math
 import os
@@ -1265,10 +1266,23 @@ def shard(shard_no, nshards, seed, tier):
     return st_
 
 
+def _drop_sqlite_leftovers():
+    """Close what the applications of earlier cases left behind (sqlite connections in reference cycles) *now*, in
+    this thread.  Otherwise the cyclic GC may finalise them later in one of multiprocessing.Pool's helper threads
+    of the runner process, inside libsqlite3's global mutex, at the very moment another helper thread forks a
+    replacement worker - which then inherits the locked mutex and blocks forever in its first sqlite3.connect()
+    (seen: worker stuck in pthread_mutex_lock <- sqlite3PagerOpen, runner waiting in Pool.map)."""
+    gc.collect()
+
+
 def run(tier, seed, stats):
+    _drop_sqlite_leftovers()
     stats.merge(core.parallel(shard, 16, seed, tier))
 
 
 def replay(case, stats):
-    v, _ = run_case(case, stats, exclude_known=False)
+    try:
+        v, _ = run_case(case, stats, exclude_known=False)
+    finally:
+        _drop_sqlite_leftovers()
     return [v] if v is not None else []
